@@ -46,7 +46,10 @@ Inductive label :=
   | LLambda (i : nat)                 (* the dispatcher runs session i's posted cleanup *)
   | LCbBegin (i k : nat) | LCbEnd (i k : nat)  (* OnData starts / returns on stream k *)
   | LEnter (i : nat)                  (* a user thread passes Flush's state check on an opened stream *)
-  | LAccess (i : nat).                (* ... and reaches s.session.sendQueue().put / wakeUpPeer *)
+  | LAccess (i : nat)                 (* ... and reaches s.session.sendQueue().put / wakeUpPeer *)
+  | LOpenFail (p : Z).                (* newSession on buffer path p whose handshake fails: initMemManager took a
+                                         reference (or mapped the manager), the error path drops exactly that
+                                         reference with addGlobalBufferManagerRefCount(path, -1) *)
 
 Fixpoint upd {A} (i : nat) (x : A) (l : list A) : list A :=
   match l, i with
@@ -204,6 +207,10 @@ Definition step (w : world) (l : label) : world :=
           end
       | None => w
       end
+  | LOpenFail p =>
+      let '(t, cr) := tbl_acquire p (tbl w) (creates w) in
+      let '(t', um) := tbl_release p t (unmaps w) in
+      {| ss := ss w; tbl := t'; creates := cr; unmaps := um; qunmaps := qunmaps w; faults := faults w |}
   end.
 
 Definition run (sch : list label) (w : world) : world := fold_left step sch w.
